@@ -29,6 +29,9 @@ func (b *baseSpace) newWorld() *World {
 	if b.spec.Extra["kLim"] == 1 {
 		w.KeyUniverse = append(w.KeyUniverse, KeyOfDefault(100), KeyOfDefault(101))
 	}
+	for i := 0; i < b.spec.Extra["realcoll"]; i++ {
+		w.KeyUniverse = append(w.KeyUniverse, KeyOfDefault(300+i))
+	}
 	// Key universe: every key an operation of this space can ever use on any map.
 	nScalar, nField := b.spec.Keys, 0
 	for _, cl := range b.spec.Classes {
@@ -157,6 +160,11 @@ func KeyOfDefault(n int) MV {
 		return Str{StrOfSize(maxKey+1, "K101.")}
 	case n >= 200 && n < 300:
 		return Str{fmt.Sprintf("f%d", n-200)} // field names of composite maps
+	case n >= 300 && n < 400:
+		// keys that collide on the FIRST digest level under the default digester for every seed:
+		// CircleHash64 mixes 16-byte blocks as mix64(a^pi1, b^state); a block starting with pi1 wipes the
+		// state, so the 14-byte prefix (after the 2-byte CBOR head) no longer influences the digest.
+		return Bytes{fmt.Sprintf("key-%010d", n) + "\x44\x73\x70\x03\x2e\x8a\x19\x13" + "-common-tail"}
 	}
 	return Str{fmt.Sprintf("K%d", n)}
 }
@@ -177,6 +185,9 @@ func init() {
 		}
 		if s.Extra["kLim"] == 1 {
 			sp.keys = append(sp.keys, 100, 101)
+		}
+		for i := 0; i < s.Extra["realcoll"]; i++ {
+			sp.keys = append(sp.keys, 300+i)
 		}
 		return sp
 	})
